@@ -319,7 +319,13 @@ def frame(ctx, o, eff: Effects):
                                                                    f"spent of the clone's tasks may change")
                 else:
                     o.undecided(f, f.node, f"{unmangle(fld)}@{root}", f"write with undetermined receiver: {chain}")
-            # direct calls of relation setters / facade mutators / setattr on tasks
+    # direct calls of relation setters / facade mutators / setattr on tasks (calc included: what it does to the clone before / after the
+    # pass shows in the result)
+    for S in BOTH:
+        for key in ('pass_', 'search', 'fill', 'prepare', 'calc'):
+            f = prog.funcs.get(S[key]) if key == 'prepare' else prog.func(S[key])
+            if f is None:
+                continue
             for ci in ctx.cg.calls_in(f):
                 for t in ci.targets:
                     if t is not None and t.cls in ('Task', '_ChildrenList', '_TaskList', '_PredecessorsList', '_SuccessorsList', 'WBS') and \
@@ -371,6 +377,18 @@ def _ledger_instance_fields(prog):
                 or (isinstance(val, ast.Call) and isinstance(val.func, ast.Name) and val.func.id in ('defaultdict', 'OrderedDict', 'Counter'))):
             out.add(tgt.attr)
     return out
+
+
+def _stores_default_resource(prog, ctx, f, node):
+    """node belongs to `self.<table>[k] = v` with v (expanded) a `Resource(..)` constructor call"""
+    for st in walk_no_nested(f.node):
+        if isinstance(st, ast.Assign) and any(x is node for x in ast.walk(st)):
+            cn = cfg_of(f).node_of(st)
+            v = Expander(prog, f, ctx.typer, inline=False).expand(st.value, cn) if cn is not None else st.value
+            return any(isinstance(c_, ast.Call) and isinstance(c_.func, ast.Name) and c_.func.id == 'Resource' for _, c_ in sched.expr_cases(v)) and \
+                all((isinstance(c_, ast.Call) and isinstance(c_.func, ast.Name) and c_.func.id == 'Resource') or isinstance(c_, (ast.Call, ast.Name, ast.Attribute, ast.Subscript))
+                    for _, c_ in sched.expr_cases(v))
+    return False
 
 
 def _per_call_state(ctx, S):
@@ -460,6 +478,8 @@ def fresh(ctx, o, eff: Effects):
                 if w.root == 'self':
                     if w.field == S['resources'] and w.kind == 'mutate:setdefault':
                         continue
+                    if w.field == S['resources'] and w.kind == 'subscript-store' and _stores_default_resource(prog, ctx, f, w.node):
+                        continue        # `table[name] = Resource(name)` spelled without setdefault: the same deterministic default
                     if w.field in _per_call_state(ctx, S):
                         o.site(f, w.node, f"self.{unmangle(w.field)}: per-call state, re-initialised by calc before the pass runs")
                         continue
